@@ -28,6 +28,19 @@ CHECKS = {
     note="Trusted: Coq kernel; extraction + OCaml driver; harness. Model covers step-1 slices; extended slices, */*=, comparisons, "
          "pickling and GC of views are outside. Hypothesis: the sort function preserves length. No axioms.",
     technique="Coq proof (invariant by induction over operation sequences, refinement to plain-list splice) + model/implementation correspondence"),
+ "C11": dict(
+    category="proof",
+    text="Theorems (Coq, on top of C13, for every state with valid views and every history of edit calls): an edit through a "
+         "section equals the same edit on a plain node list and appears in the page at the section's place; an edit through the page "
+         "is the plain-list edit; every other section stays a valid, readable view related to its old content by a chain of splices "
+         "that only delete or insert the edit's own new nodes (so it gains nothing from outside); validity holds after any sequence "
+         "of edits. Each Wikicode call (insert/append/set/remove/replace/insert_before/insert_after by index, node or view) is "
+         "modelled as the list operations the code performs; tied to /repo by comparing page and section contents/bounds after "
+         "every call on parsed pages with get_sections views; string targets and nested edits are checked by the oracle only.",
+    design_ref="DESIGN.md section 5, C11",
+    note="Trusted: as C13, plus: node identity modelled by integers; parse_anything returns the given nodes for Node/Wikicode values. "
+         "String-target edits are validated (oracle), not modelled. No axioms.",
+    technique="Coq proof (composition of C13 over operation sequences) + model/implementation correspondence on real pages"),
 }
 
 NOT_YET = {}
